@@ -22,7 +22,7 @@ from harness import solvermodel as sm
 from harness.checks import c02
 from harness.core import Cut, F
 
-PROPS_MODULES = ["Pdq.Props.C03", "Pdq.Props.C03Order", "Pdq.Props.C02"]
+PROPS_MODULES = ["Pdq.Props.C03", "Pdq.Props.C03Run", "Pdq.Props.C03Order", "Pdq.Props.C02"]
 LEVEL = "proof"
 TOL = 1e-9
 
